@@ -86,4 +86,12 @@ BREAKERS = [
      "            while len(acoeff) > 0 and acoeff[-1][0] > Nmax:\n                acoeff.pop()", 'truncate-branches-agree'),
     (PE, "        return type(self)(self.rotatecoeff(self.coefflist, powtrans))", "        return Taylor3D(self.rotatecoeff(self.coefflist, powtrans))", 'no-concrete-class'),
 ]
-NEUTRALS = []
+BREAKERS += [
+    # shallow copies keep the operand's arrays: the later in-place accumulation edits the operand
+    (PE, "            c = [(an, almax, alpha * apow) for (an, almax, apow) in acoeff]", "            c = list(acoeff)", 'operand-purity'),
+    (PE, "            c = [(an, almax, alpha * apow) for (an, almax, apow) in acoeff]", "            c = [(an, almax, apow) for (an, almax, apow) in acoeff]", 'operand-purity'),
+    (PE, "            c = [(an, almax, alpha * apow) for (an, almax, apow) in acoeff]", "            c = acoeff[:]", 'operand-purity'),
+]
+NEUTRALS = [
+    (PE, "            c = [(an, almax, alpha * apow) for (an, almax, apow) in acoeff]", "            c = [(an, almax, apow * alpha) for (an, almax, apow) in list(acoeff)]"),
+]
